@@ -41,6 +41,9 @@ import (
 )
 
 const c09Chain = "eth-main"
+
+// second remote chain (validators register fees for both chains in one message; jobs run on either)
+const c09Chain2 = "bnb-main"
 const c09ERC20 = "0x00000000000000000000000000000000000000E1"
 
 var c09Multiplicators = []string{"1.1", "-1", "-0.000000000000000001", "0", "1000000000000000000000000000000", "340282366920938463463374607431768211455", "0.000000000000000001", "18446744073709551616",
@@ -73,7 +76,7 @@ func TestC09_BlocksNeverAbort(t *testing.T) {
 		for i := range stakes {
 			stakes[i] = 100_000_000
 		}
-		c, err := chain.New(chain.Options{Salt: salt, Stakes: stakes, InitialHeight: base, Users: []string{"ub", "canary", "sink"}, EvmChains: []chain.EvmChain{{RefID: c09Chain, ChainID: 1}}})
+		c, err := chain.New(chain.Options{Salt: salt, Stakes: stakes, InitialHeight: base, Users: []string{"ub", "canary", "sink"}, EvmChains: []chain.EvmChain{{RefID: c09Chain, ChainID: 1}, {RefID: c09Chain2, ChainID: 56}}})
 		if err != nil {
 			t.Fatalf("boot: %v", err)
 		}
@@ -92,7 +95,11 @@ func TestC09_BlocksNeverAbort(t *testing.T) {
 		if res, err := c.Block(c.MustSign(ub, &schedtypes.MsgCreateJob{Metadata: chain.MD(ub), Job: &schedtypes.Job{ID: "j1", Routing: schedtypes.Routing{ChainType: "evm", ChainReferenceID: c09Chain}, Definition: def, Payload: pl, IsPayloadModifiable: true}})); err != nil || res.TxResults[0].Code != 0 {
 			t.Fatalf("job: %v", err)
 		}
-		q := chain.TurnstoneQueue(c09Chain)
+		if res, err := c.Block(c.MustSign(ub, &schedtypes.MsgCreateJob{Metadata: chain.MD(ub), Job: &schedtypes.Job{ID: "j2", Routing: schedtypes.Routing{ChainType: "evm", ChainReferenceID: c09Chain2}, Definition: def, Payload: pl, IsPayloadModifiable: true}})); err != nil || res.TxResults[0].Code != 0 {
+			t.Fatalf("job: %v", err)
+		}
+		// the chain whose message queue the turnstone actions below work on (switchChain toggles it)
+		q, job := chain.TurnstoneQueue(c09Chain), "j1"
 		var log []string
 		hostileAccepted := 0
 		crossedHousekeeping := false
@@ -135,10 +142,23 @@ func TestC09_BlocksNeverAbort(t *testing.T) {
 				if m != "unset" {
 					dec = sdkmath.LegacyMustNewDecFromStr(m)
 				}
-				oks := block(t, "relayerFee", c.MustSign(v.Actor, &treasurytypes.MsgUpsertRelayerFee{Metadata: chain.MD(v.Actor), FeeSetting: &treasurytypes.RelayerFeeSetting{ValAddress: v.Val().String(),
-					Fees: []treasurytypes.RelayerFeeSetting_FeeSetting{{ChainReferenceId: c09Chain, Multiplicator: dec}}}}))
-				log = append(log, fmt.Sprintf("h%d:fee(v%d,%s)=%v", c.H-1, v.Index, m, oks[0]))
+				// the fee of one chain, or of both in one message (in either order)
+				var fees []treasurytypes.RelayerFeeSetting_FeeSetting
+				which := rapid.SampledFrom([]string{"eth", "bnb", "eth+bnb", "bnb+eth"}).Draw(t, "chains")
+				for _, p := range strings.Split(which, "+") {
+					fees = append(fees, treasurytypes.RelayerFeeSetting_FeeSetting{ChainReferenceId: p + "-main", Multiplicator: dec})
+				}
+				oks := block(t, "relayerFee", c.MustSign(v.Actor, &treasurytypes.MsgUpsertRelayerFee{Metadata: chain.MD(v.Actor), FeeSetting: &treasurytypes.RelayerFeeSetting{ValAddress: v.Val().String(), Fees: fees}}))
+				log = append(log, fmt.Sprintf("h%d:fee(v%d,%s,%s)=%v", c.H-1, v.Index, which, m, oks[0]))
 				hostile(oks[0] && m != "1.1")
+			},
+			"switchChain": func(t *rapid.T) {
+				if job == "j1" {
+					q, job = chain.TurnstoneQueue(c09Chain2), "j2"
+				} else {
+					q, job = chain.TurnstoneQueue(c09Chain), "j1"
+				}
+				log = append(log, "switchChain("+job+")")
 			},
 			"executeJob": func(t *rapid.T) {
 				var payload []byte
@@ -148,7 +168,7 @@ func TestC09_BlocksNeverAbort(t *testing.T) {
 				case 2:
 					payload, _ = json.Marshal(evmtypes.JobPayload{HexPayload: "zz-not-hex"})
 				}
-				oks := block(t, "executeJob", c.MustSign(ub, &schedtypes.MsgExecuteJob{Metadata: chain.MD(ub), JobID: "j1", Payload: payload}))
+				oks := block(t, "executeJob", c.MustSign(ub, &schedtypes.MsgExecuteJob{Metadata: chain.MD(ub), JobID: job, Payload: payload}))
 				log = append(log, fmt.Sprintf("h%d:exec(payload %d bytes)=%v", c.H-1, len(payload), oks[0]))
 				hostile(oks[0] && len(payload) > 100)
 			},
